@@ -25,6 +25,9 @@ import ast
 import copy
 
 _GETTERS = {'itemgetter', 'attrgetter'}
+# Counter(...)[K] is understood natively by the count terms of sa/norm.py (COUNT_INFO); the rewrite
+# I5 is kept for reference but switched off, because the native form also sees through locals
+REWRITE_COUNTER = False
 _n = [0]
 
 
@@ -476,6 +479,15 @@ class _Rewrite(ast.NodeTransformer):
         if not isinstance(node.ctx, ast.Load):
             return node
         c = node.value
+        # (a, b, c)[1] is b
+        if isinstance(c, (ast.Tuple, ast.List)) and isinstance(node.slice, ast.Constant) and isinstance(
+                node.slice.value, int) and not isinstance(node.slice.value, bool) and not any(
+                    isinstance(x, ast.Starred) for x in c.elts) and -len(c.elts) <= node.slice.value < len(c.elts) \
+                and all(_simple(x) or _cheap(x) or isinstance(x, (ast.BinOp, ast.Compare)) for x in c.elts):
+            self.changed += 1
+            return c.elts[node.slice.value]
+        if not REWRITE_COUNTER:
+            return node
         if isinstance(c, ast.Name) and self.local[-1].get(c.id, (None,))[0] == 'counter':
             c = self.local[-1][c.id][1]
         if isinstance(c, ast.Call) and _is_lib(c, 'Counter', ('collections',)) and len(c.args) == 1 and isinstance(
@@ -543,7 +555,7 @@ class _Rewrite(ast.NodeTransformer):
             self.changed += 1
             return lam
         # Counter(...).get(K, 0)
-        if isinstance(node.func, ast.Attribute) and node.func.attr == 'get' and len(node.args) in (1, 2) and (
+        if REWRITE_COUNTER and isinstance(node.func, ast.Attribute) and node.func.attr == 'get' and len(node.args) in (1, 2) and (
                 len(node.args) == 1 or (isinstance(node.args[1], ast.Constant) and node.args[1].value == 0)):
             c = node.func.value
             if isinstance(c, ast.Name) and self.local[-1].get(c.id, (None,))[0] == 'counter':
@@ -701,6 +713,25 @@ class _Rewrite(ast.NodeTransformer):
                     return ast.fix_missing_locations(ast.copy_location(ast.Call(
                         func=ast.Name(id='any' if is_or else 'all', ctx=ast.Load()), args=[g], keywords=[]), node))
         return node
+
+    def _splice(self, node):
+        # (*(a, b), *(c, d)) is (a, b, c, d)
+        self.generic_visit(node)
+        if isinstance(node.ctx, ast.Load) and any(
+                isinstance(x, ast.Starred) and isinstance(x.value, (ast.Tuple, ast.List)) and not any(
+                    isinstance(y, ast.Starred) for y in x.value.elts) for x in node.elts):
+            elts = []
+            for x in node.elts:
+                if isinstance(x, ast.Starred) and isinstance(x.value, (ast.Tuple, ast.List)) and not any(
+                        isinstance(y, ast.Starred) for y in x.value.elts):
+                    elts += list(x.value.elts)
+                else:
+                    elts.append(x)
+            node.elts = elts
+            self.changed += 1
+        return node
+
+    visit_Tuple = visit_List = _splice
 
     def visit_IfExp(self, node):
         self.generic_visit(node)
